@@ -11,7 +11,7 @@ def replay_built():
     env = dict(os.environ, CARGO_NET_OFFLINE="true", RUSTFLAGS="--cfg packing_verif",
                CARGO_TARGET_DIR=os.path.join(VERIF, "target", "replay"))
     env.pop("RUSTUP_TOOLCHAIN", None)
-    shutil.copy("/repo/Cargo.lock", os.path.join(VERIF, "replay", "Cargo.lock"))
+    shutil.copy(os.path.join(os.environ.get("VERIF_REPO", "/repo"), "Cargo.lock"), os.path.join(VERIF, "replay", "Cargo.lock"))
     for prof in ([], ["--release"]):
         p = subprocess.run(["cargo", "build", "--offline"] + prof, cwd=os.path.join(VERIF, "replay"), env=env,
                            stdout=subprocess.PIPE, stderr=subprocess.STDOUT, text=True)
